@@ -560,6 +560,16 @@ class PhysicalAccessor(Accessor[T_co]):
         )
 
 
+def _check_movable(
+    element: etree._Element, new_parent: etree._Element
+) -> None:
+    """Refuse to move an element below itself before anything changes."""
+    if element is new_parent or any(
+        i is element for i in new_parent.iterancestors()
+    ):
+        raise ValueError("Cannot move an element below itself")
+
+
 def _check_deletable(elements: cabc.Iterable[etree._Element]) -> None:
     """Refuse to delete roots of fragment files before anything changes."""
     for elm in elements:
@@ -833,6 +843,7 @@ class DirectProxyAccessor(WritableAccessor[T_co], PhysicalAccessor[T_co]):
                 parent_index = 0
         except (KeyError, ValueError):
             parent_index = len(elmlist._parent._element)
+        _check_movable(value._element, elmlist._parent._element)
         with contextlib.suppress(ValueError):
             # not part of any fragment, e.g. below an element that was
             # removed from the model just before
@@ -1948,6 +1959,7 @@ class RoleTagAccessor(WritableAccessor, PhysicalAccessor):
                 parent_index = 0
         except (KeyError, ValueError):
             parent_index = len(elmlist._parent._element)
+        _check_movable(value._element, elmlist._parent._element)
         with contextlib.suppress(ValueError):
             # not part of any fragment, e.g. below an element that was
             # removed from the model just before
